@@ -48,6 +48,12 @@ CHECKS = {
  "C12": dict(level="exploration", ref="5 C12", tech="bounded-exhaustive enumeration of winner combinations and band relations per era through the real pipeline against a reference band filter; immutability invariant on every transition",
    text="In 8 eras: OPR winners absent/too few/present x SPR winners absent/too few/ineligible/present, every in-band relation spread over the assets, one block per (representative asset, edge-1/edge/edge+1/edge+2/far outside on both sides), PEG price zero / equation (from an empty ledger and with supply) / floating; recorded rows must equal the reference band filter (rows within one unit of an exact edge accept either verdict), a winner-less block records nothing and executes no waiting conversion, and after every committed block earlier heights' rows are unchanged.",
    note="Before 2.0.2 an out-of-band pair is treated as a conflict for which 'no rates' is admissible."),
+ "C14": dict(level="exploration", ref="5 C14", tech="bounded-exhaustive enumeration of holdings and movements across two real snapshots through the real pipeline, checked against the min-stake proportionality and cap bounds over all addresses",
+   text="Chains through snapshot heights 432 and 576 in four 2.x eras: a probe holder over every combination of holdings {0,10,1000 pUSD} x {0,5 pEUR} x {0,50 PEG} and movement {none, receive, send all, send part, convert, first funded after the first snapshot}, two fixed holders, ties, total stake far below / above the cap through the rates quoted at the snapshot, graded and ungraded snapshot block, an asset zeroed by the band, a transfer inside the snapshot block. For ALL addresses: stake from min(balance at 431, balance at 575); payout 0 without stake or when absent from a snapshot, else within n units of the proportional share; total <= cap and == cap when the stake exceeds it; no staking movement at 575/577.",
+   note="Whole-unit balances make the valuation exact; a harness self-check verifies that holders really hold the specified amounts at the first snapshot."),
+ "C15": dict(level="exploration", ref="5 C15", tech="enumeration of activation alignments (0..143 for developer rewards, 0..61 for the first zeroing) over 450-900 block chains with a per-block tracker of the special addresses against the issuance schedule",
+   text="After every committed block the balances of the 14 developer addresses, both burn addresses and the mint address are read; per-block deltas must equal the schedule (pct% of 2,000 PEG, x144 from 2.0.2, at every multiple of 144 from the activation; zeroings, mint and mint burn exactly at their heights for exactly the balance held / the listed amounts; nothing at any other height). Quick covers 54 of the 144 developer alignments, 80 zeroing configurations and 8 late-adjustment chains; thorough covers all.",
+   note="The old burn address has the all-zero RCD hash: transfers to it are destroyed by this tree even before 2.0.2, so it can only hold mining rewards. Alignment 0 of the first zeroing cannot be synced (reported as inconclusive here; liveness is C08's)."),
 }
 
 NOT_YET = {}
